@@ -17,9 +17,12 @@ S == 1..MaxS
 Alpha(b) == LET base == [t \in 1..(2 * (2 ^ b) + 1) |-> t - 1 - 2 ^ b]
             IN IF Wide THEN <<-(2 ^ (b + 1))>> \o base \o <<2 ^ (b + 1)>> ELSE base
 
+\* three-limb sources use the balanced range widened by one digit on each side (keeps alpha^3 enumerable for b = 4)
+Narrow(b) == [t \in 1..(2 ^ b + 2) |-> t - 2 - 2 ^ (b - 1)]
+AlphaFor(b, sz) == IF sz >= 3 /\ b >= 3 THEN Narrow(b) ELSE Alpha(b)
 D(op, rs, as, rb, ab, k) ==
   [op |-> op, n |-> N, na |-> N, rs |-> rs, as |-> as, bs |-> 1, rb |-> rb, ab |-> ab, k |-> k,
-   alpha |-> Alpha(ab), vmax |-> 2 ^ rb, limb |-> 0, part |-> 0]
+   alpha |-> AlphaFor(ab, IF op \in {"normalize_assign", "lsh_assign", "rsh_assign"} THEN rs ELSE as), vmax |-> 2 ^ rb, limb |-> 0, part |-> 0]
 
 Span(as, ab) == as * ab + 2 * ab
 
